@@ -133,7 +133,7 @@ class Spec(object):
     ]
 
     def monitors(self, cfg):
-        if any(n.get("preempt") for n in cfg["nodes"]):
+        if any(n.get("preempt") or (isinstance(n.get("c"), dict) and (n["c"].get("sched") or {}).get("preempt")) for n in cfg["nodes"]):
             # pre-emption families: the per-visit sample identities of C11 state "lasts exactly the sampled time"
             from .c11 import Monitor as M11
             from ..history import History
@@ -173,7 +173,12 @@ def focused(tier):
                    K=2, T=8.0, D=4 if tier == "quick" else 6, features=["state_dependent"]))
     out.append(tandem("tandem blocking", fam, c=(1, 1), caps=(None, 0), K=K, features=["blocking"]))
     from .c11 import ties_and_disciplines
-    out += [c for c in ties_and_disciplines(tier, fam="F-samples-preempt") if "tie" in c["name"]]
+    out += [c for c in ties_and_disciplines(tier, fam="F-samples-preempt") if "tie" in c["name"] or "sched" in c["name"]]
+    for opt in ("resume", "restart", "resample"):
+        out.append(single("sched-preempt %s (one sample per service)" % opt, "F-samples-preempt", K=K, T=10.0, srv=[3.0, 1.0],
+                          c={"sched": {"numbers": [1, 0, 2], "ends": [1.5, 2.5, 4.0], "preempt": opt}}, features=["schedule", "preempt_sched"]))
+    out.append(single("batch overshoots capacity", fam, c=1, K=K, srv=SRV2, nodekw={"cap": 1}, classkw={"batch": [[4, 1, 3]]}, features=["batching", "capacity"]))
+    out.append(single("batch overshoots system capacity", fam, c=2, K=K, srv=SRV2, system_capacity=2, classkw={"batch": [[4, 1]]}, features=["batching", "syscap"]))
     # invalid answers: one per sample position of the default execution
     fam = "F-invalid"
     out.append(cfg("invalid c=1 batch", fam, [node(c=1)],
